@@ -50,6 +50,51 @@ def valueEq (a b : Dec) : Bool :=
      else a.coeff == b.coeff * 10 ^ (b.exp - a.exp).toNat))
 
 
+/-- the specification oracles for one outcome of a context operation (whatever aliasing pattern or
+destination pre-state produced it): returns the PROPFAIL lines -/
+def ctxOracles (id op : String) (c : Ctx) (x y : Dec) (iarg : Int) (impl : Out) (fli : Nat) (coeffNeg : Bool) : List String := Id.run do
+  let delivered : ErrKind → Bool := fun e => e == .none || (e == .trap && (impl.fl &&& c.traps).any)
+  let mut out : List String := []
+  if fli ≥ 4096 then
+    out := out ++ [s!"{id} PROPFAIL C02 flag bit outside the twelve conditions"]
+  if coeffNeg then
+    out := out ++ [s!"{id} PROPFAIL C04 negative coefficient"]
+  if delivered impl.err then
+    if fitsOps.contains op && !fits c impl.d then
+      out := out ++ [s!"{id} PROPFAIL C07 result does not fit the context"]
+    if op == "quoint" && impl.d.form == .finite && impl.d.exp != 0 then
+      out := out ++ [s!"{id} PROPFAIL C07 QuoInteger exponent not 0"]
+    match exactOf op c x y with
+    | none => pure ()
+    | some ex =>
+      let spec? := if c.prec == 0 then specExact c ex else some (specRound c ex)
+      match spec? with
+      | none => pure ()
+      | some s =>
+        if !s.matches impl.d then
+          out := out ++ [s!"{id} PROPFAIL C01 spec= inf={s.inf} neg={s.neg} m={s.m} q={s.q}"]
+        let f := impl.fl
+        if f.inexact != s.inexact then
+          out := out ++ [s!"{id} PROPFAIL C02 inexact impl={f.inexact} spec={s.inexact}"]
+        if f.subnormal != s.subnormal then
+          out := out ++ [s!"{id} PROPFAIL C02 subnormal impl={f.subnormal} spec={s.subnormal}"]
+        if f.underflow != s.underflow then
+          out := out ++ [s!"{id} PROPFAIL C02 underflow impl={f.underflow} spec={s.underflow}"]
+        if f.overflow != s.overflow then
+          out := out ++ [s!"{id} PROPFAIL C02 overflow impl={f.overflow} spec={s.overflow}"]
+        if f.inexact && !f.rounded && impl.d.form == .finite then
+          out := out ++ [s!"{id} PROPFAIL C02 inexact without rounded"]
+        if f.overflow && !f.inexact then
+          out := out ++ [s!"{id} PROPFAIL C02 overflow without inexact"]
+    match Apd.Spec.specials op x y with
+    | some e =>
+      if !(e.meets impl.d impl.fl) then
+        out := out ++ [s!"{id} PROPFAIL C08 special-value rule: expected form={repr e.form} neg={repr e.neg} invalid={e.invalid} divByZero={e.divByZero} divUndefined={e.divUndefined}"]
+    | none => pure ()
+    for (prop, why) in opOracle op c x y iarg impl do
+      out := out ++ [s!"{id} PROPFAIL {prop} {why}"]
+  return out
+
 /-- handle one `ctxop` line; returns the problem lines -/
 def handleCtxOp (id : String) (t : List String) : Option (List String × Nat × Nat) :=
   match t with
@@ -83,46 +128,9 @@ def handleCtxOp (id : String) (t : List String) : Option (List String × Nat × 
       if !projs.isEmpty then
         mm := mm + 1
         out := out ++ [s!"{id} MISMATCH {",".intercalate projs} model= {showOut m}"]
-    -- specification oracles on the implementation's output
-    if fli ≥ 4096 then
-      pf := pf + 1; out := out ++ [s!"{id} PROPFAIL C02 flag bit outside the twelve conditions"]
-    if di.coeffNeg then
-      pf := pf + 1; out := out ++ [s!"{id} PROPFAIL C04 negative coefficient"]
-    if delivered impl.err then
-      if fitsOps.contains op && !fits c impl.d then
-        pf := pf + 1; out := out ++ [s!"{id} PROPFAIL C07 result does not fit the context"]
-      if op == "quoint" && impl.d.form == .finite && impl.d.exp != 0 then
-        pf := pf + 1; out := out ++ [s!"{id} PROPFAIL C07 QuoInteger exponent not 0"]
-      match exactOf op c x.d y.d with
-      | none => pure ()
-      | some ex =>
-        let spec? := if c.prec == 0 then specExact c ex else some (specRound c ex)
-        match spec? with
-        | none => pure ()
-        | some s =>
-          if !s.matches impl.d then
-            pf := pf + 1
-            out := out ++ [s!"{id} PROPFAIL C01 spec= inf={s.inf} neg={s.neg} m={s.m} q={s.q}"]
-          let f := impl.fl
-          if f.inexact != s.inexact then
-            pf := pf + 1; out := out ++ [s!"{id} PROPFAIL C02 inexact impl={f.inexact} spec={s.inexact}"]
-          if f.subnormal != s.subnormal then
-            pf := pf + 1; out := out ++ [s!"{id} PROPFAIL C02 subnormal impl={f.subnormal} spec={s.subnormal}"]
-          if f.underflow != s.underflow then
-            pf := pf + 1; out := out ++ [s!"{id} PROPFAIL C02 underflow impl={f.underflow} spec={s.underflow}"]
-          if f.overflow != s.overflow then
-            pf := pf + 1; out := out ++ [s!"{id} PROPFAIL C02 overflow impl={f.overflow} spec={s.overflow}"]
-          if f.inexact && !f.rounded && impl.d.form == .finite then
-            pf := pf + 1; out := out ++ [s!"{id} PROPFAIL C02 inexact without rounded"]
-          if f.overflow && !f.inexact then
-            pf := pf + 1; out := out ++ [s!"{id} PROPFAIL C02 overflow without inexact"]
-      match Apd.Spec.specials op x.d y.d with
-      | some e =>
-        if !(e.meets impl.d impl.fl) then
-          pf := pf + 1; out := out ++ [s!"{id} PROPFAIL C08 special-value rule: expected form={repr e.form} neg={repr e.neg} invalid={e.invalid} divByZero={e.divByZero} divUndefined={e.divUndefined}"]
-      | none => pure ()
-      for (prop, why) in opOracle op c x.d y.d iarg impl do
-        pf := pf + 1; out := out ++ [s!"{id} PROPFAIL {prop} {why}"]
+    let ol := ctxOracles id op c x.d y.d iarg impl fli di.coeffNeg
+    out := out ++ ol
+    pf := pf + ol.length
     pure (out, mm, pf)
   | [_op, _p, _emax, _emin, _traps, _mode, _xs, _ys, _ia, "=>", what] =>
     -- PANIC / HANG
@@ -650,6 +658,8 @@ def handleAlias (id : String) (t : List String) : Option (List String × Nat × 
             if !(same mo o) then res := merge res ([s!"{id} MISMATCH alias-imp[{name}] model= {showOut mo}"], 1, 0)
           | none => pure ()
         | none => pure ()
+        let ol := ctxOracles id op c x y iarg o fl d.coeffNeg
+        if !ol.isEmpty then res := merge res (ol.map (fun l => l ++ s!" [pattern {name}]"), 0, ol.length)
         if name == "fresh" then
           base := some o
           match runCtxOp op c x y iarg with
